@@ -20,14 +20,14 @@ include hext hflt hapE
 
 /-- **the typed round trip on the written text.** For every schema, every well-formed typed value `tv` of it (`wfTVx`), whose
     `f64` members and floats inside `Value` members the printer / parser pair returns (`floatsRT` on the document), whose
-    `f32` members `deserialize_f32` reads back from `ryu`'s binary32 digits (`h32`), within the depth budget: the typed
+    (finite) `f32` members `deserialize_f32` reads back from `ryu`'s binary32 digits (`h32`), within the depth budget: the typed
     deserializer on the text of the document in the layout `L` (compact or pretty), followed by a separator, a closing bracket,
     whitespace or nothing, returns `tv` and stops right after it. -/
 theorem reads_gen :
     ∀ (f : Nat) (s : Schema), Schema.size s ≤ f → ∀ (t d : Nat) (tv : TVal),
       wfTVx (specCfg env.cfg) ext.ryu32 s tv = true →
       Spec.WF.floatsRT (specCfg env.cfg) ext (valueOfL ext.ryu32 s tv) = true →
-      (∀ b ∈ f32sOf tv, Reads (deNumber env .f32) (.f32 b) (ext.ryu32 b)) →
+      (∀ b ∈ f32sOf tv, Spec.Program.finite32 b = true → Reads (deNumber env .f32) (.f32 b) (ext.ryu32 b)) →
       DepthOK env t (valueOfL ext.ryu32 s tv) →
       Reads (deTyped env f t s) tv (TL ext L d (valueOfL ext.ryu32 s tv)) := by
   intro f
@@ -40,7 +40,7 @@ theorem reads_gen :
     have ihH : ∀ (s' : Schema), Schema.size s' ≤ f → ∀ (t' d' : Nat) (x : TVal),
         wfTVx (specCfg env.cfg) ext.ryu32 s' x = true →
         Spec.WF.floatsRT (specCfg env.cfg) ext (valueOfL ext.ryu32 s' x) = true →
-        (∀ b ∈ f32sOf x, Reads (deNumber env .f32) (.f32 b) (ext.ryu32 b)) →
+        (∀ b ∈ f32sOf x, Spec.Program.finite32 b = true → Reads (deNumber env .f32) (.f32 b) (ext.ryu32 b)) →
         DepthOK env t' (valueOfL ext.ryu32 s' x) →
         Reads (deTyped env f t' s') x (TL ext L d' (valueOfL ext.ryu32 s' x)) ∧ HeadOK (TL ext L d' (valueOfL ext.ryu32 s' x)) :=
       fun s' hs' t' d' x hwx hFx h32x hdx =>
@@ -91,7 +91,7 @@ theorem reads_gen :
       | f32 b =>
         simp only [valueOfL]
         rw [deTyped_f32, TL_scalar ext L d _ (fun _ h => by cases h) (fun _ h => by cases h), T_lit]
-        exact h32 b (by simp [f32sOf])
+        exact h32 b (by simp [f32sOf]) (by simpa [wfTVx] using hw)
       | _ => simp [wfTVx] at hw
     | any =>
       cases tv with
@@ -148,7 +148,7 @@ theorem reads_gen :
         simp only [valueOfL] at hF hd ⊢
         refine reads_tuple ext L hext hflt d ss f t _ xs hd ?_
         exact tupReads_gen ext L hext hflt hapE _ (deTyped env f (t + 1)) (t + 1) (d + 1) (fun s' => Schema.size s' ≤ f)
-          (fun b => Reads (deNumber env .f32) (.f32 b) (ext.ryu32 b))
+          (fun b => Spec.Program.finite32 b = true → Reads (deNumber env .f32) (.f32 b) (ext.ryu32 b))
           (fun s' x hq hwx hFx h32x hdx => ihH s' hq (t + 1) (d + 1) x hwx hFx h32x hdx) ss xs
           (fun s' hs' => by have := size_mem_list ss s' hs'; simp only [Schema.size] at hs; omega) hw
           (by simpa [Spec.WF.floatsRT] using hF) (fun b hb => h32 b (by simpa [f32sOf] using hb))
@@ -176,7 +176,7 @@ theorem reads_gen :
         rw [deTyped_struct]
         refine reads_deStruct ext L hflt d (deTyped env f) (fun t' s' => deTyped_pad f t' s') fs deny t _ xs hd hw.1.2 ?_
         exact fieldReads_gen ext L hext hflt hapE _ (deTyped env f (t + 1)) (t + 1) (d + 1) (fun s' => Schema.size s' ≤ f)
-          (fun b => Reads (deNumber env .f32) (.f32 b) (ext.ryu32 b))
+          (fun b => Spec.Program.finite32 b = true → Reads (deNumber env .f32) (.f32 b) (ext.ryu32 b))
           (fun s' x hq hwx hFx h32x hdx => ih s' hq (t + 1) (d + 1) x hwx hFx h32x hdx) fs xs
           (fun fld hfld => by have := size_mem_fields fs fld hfld; simp only [Schema.size] at hs; omega)
           (fun fld hfld => hw.1.1 fld.1 (List.mem_map.mpr ⟨fld, hfld, rfl⟩)) hw.2
@@ -201,7 +201,7 @@ theorem reads_gen :
           simp only [Schema.size] at hs
           simp only at h2
           omega
-        have h32p : ∀ b ∈ f32sOf p, Reads (deNumber env .f32) (.f32 b) (ext.ryu32 b) := fun b hb => h32 b (by simpa [f32sOf] using hb)
+        have h32p : ∀ b ∈ f32sOf p, Spec.Program.finite32 b = true → Reads (deNumber env .f32) (.f32 b) (ext.ryu32 b) := fun b hb => h32 b (by simpa [f32sOf] using hb)
         cases sh with
         | unit =>
           have hp : p = .unit := by cases p <;> simp_all [wfShapeX]
@@ -233,7 +233,7 @@ theorem reads_gen :
             rw [e]
             refine tupleArr_reads ext L hext hflt .seq (d + 1) _ ss (t + 1) _ xs hdx ?_
             exact tupReads_gen ext L hext hflt hapE _ (deTyped env f (t + 1 + 1)) (t + 1 + 1) (d + 1 + 1) (fun s' => Schema.size s' ≤ f)
-              (fun b => Reads (deNumber env .f32) (.f32 b) (ext.ryu32 b))
+              (fun b => Spec.Program.finite32 b = true → Reads (deNumber env .f32) (.f32 b) (ext.ryu32 b))
               (fun s' x hq hwx hFx h32x hdx => ihH s' hq (t + 1 + 1) (d + 1 + 1) x hwx hFx h32x hdx) ss xs
               (fun s' hs' => hszs s' (by simpa [shapeSchemas] using hs')) hws hFx (fun b hb => h32p b (by simpa [f32sOf] using hb))
               (fun x hx => depthOK_elem (t + 1) _ x hx hdx)
@@ -253,7 +253,7 @@ theorem reads_gen :
             rw [e]
             refine reads_deStruct ext L hflt (d + 1) (deTyped env f) (fun t' s' => deTyped_pad f t' s') fs false (t + 1) _ xs hdx hws.1.2 ?_
             exact fieldReads_gen ext L hext hflt hapE _ (deTyped env f (t + 1 + 1)) (t + 1 + 1) (d + 1 + 1) (fun s' => Schema.size s' ≤ f)
-              (fun b => Reads (deNumber env .f32) (.f32 b) (ext.ryu32 b))
+              (fun b => Spec.Program.finite32 b = true → Reads (deNumber env .f32) (.f32 b) (ext.ryu32 b))
               (fun s' x hq hwx hFx h32x hdx => ih s' hq (t + 1 + 1) (d + 1 + 1) x hwx hFx h32x hdx) fs xs
               (fun fld hfld => hszs fld.2 (by simp only [shapeSchemas]; exact List.mem_map.mpr ⟨fld, hfld, rfl⟩))
               (fun fld hfld => hws.1.1 fld.1 (List.mem_map.mpr ⟨fld, hfld, rfl⟩)) hws.2 hFx
